@@ -93,6 +93,11 @@ func (w *shakeWrapper) Read(p []byte) (n int, err error) {
 	return w.SHAKE.Read(p)
 }
 
+func (w *shakeWrapper) Reset() {
+	w.squeezing = false
+	w.SHAKE.Reset()
+}
+
 func (w *shakeWrapper) Clone() ShakeHash {
 	s := w.newSHAKE()
 	b, err := w.MarshalBinary()
